@@ -17,6 +17,21 @@ Record peer_obs := PO { p_addr : addr; p_good : bool; p_sends : list send;
                         p_pongs : Z;        (* adversaries: Reset replies to their pings (flow control) *)
                         p_hlog : list hcall (* application log for this remote address *) }.
 
+(* one connection of a run against a listener with a handshake, in the order the listener saw them *)
+Inductive ckind :=
+| CkGood            (* proper handshake, then the scripted requests one at a time *)
+| CkSilent          (* TLS: connects and sends nothing *)
+| CkPartialHello    (* TLS: 3 bytes of a ClientHello record, then nothing; DTLS: a ClientHello, never answers the HelloVerifyRequest *)
+| CkGarbage         (* random bytes instead of a handshake (DTLS: behind a handshake record header) *)
+| CkCloseNow        (* TLS: connects and closes; DTLS: a ClientHello, then the socket is closed *)
+| CkHsThenStall     (* proper handshake, then nothing *)
+| CkFiltered.       (* DTLS: a datagram that is not a handshake record: the listener's accept filter drops it *)
+Record cobs := CO { co_kind : ckind;
+                    co_hs : bool;                            (* the peer saw its handshake complete within the watchdog *)
+                    co_xs : list (greq * option owire);      (* CkGood: requests and observed answers *)
+                    co_new : Z; co_errs : Z;                 (* OnNewConn calls / errors reported for its address *)
+                    co_hlog : list hcall }.
+
 Inductive case :=
 | UdpRun (maxsize : Z) (lst : addr) (dst : option ip) (peers : list peer_obs) (sched : list nat)
          (alive probe stopped : bool) (panics : Z)
@@ -37,7 +52,10 @@ Inductive case :=
    "cannot get client connection" *)
 | RaceRun (lst : addr) (a : addr) (pairs : nat) (garbage ping : list Z) (o_news o_errs o_pongs o_dropped : Z)
 (* discovery on a live server: steps (Spec.dstep) with, for responses, the sender's address and the datagram *)
-| DiscRun (lst : addr) (dst : option ip) (steps : list (dstep * addr * list Z)).
+| DiscRun (lst : addr) (dst : option ip) (steps : list (dstep * addr * list Z))
+(* tcp server on a TLS listener / dtls server with PSK, over loopback: well-behaved clients that connected before
+   and after peers which stall, garble or abandon their handshake *)
+| TlsRun (dtls : bool) (conns : list cobs) (alive probe stopped : bool) (panics : Z).
 
 (* ---- building the event list of a run from the send order ---- *)
 Fixpoint pop_nth {A} (i : nat) (qs : list (list A)) : option A * list (list A) :=
@@ -142,6 +160,52 @@ Definition tcp_resp_agrees (q : greq) (o : owire) : bool :=
   | BNone => false
   end.
 
+(* ---- accept level (Model.v Part 5) instantiated: one stream/DTLS connection = the application applied to each
+   request, in order ---- *)
+Definition sconn_step (_ : unit) (q : greq) : unit * list (greq * Z * list Z) :=
+  match app_behaviour {| m_typ := 0; m_code := q_code q; m_mid := 0; m_tok := q_tok q;
+                         m_opts := map (fun seg => (uri_path_id, seg)) (path_of_tag routes (q_route q)); m_pay := q_pay q |} with
+  | BResp code _ pay => (tt, [(q, code, pay)])
+  | BNone => (tt, [])
+  end.
+Definition reaches_listener (k : ckind) : bool := match k with CkFiltered => false | _ => true end.
+(* the goroutine events of connection i.  A failed handshake of the DTLS server is reported only when its
+   time-out expires, which the run does not wait for: whether that event is in the history makes no difference to
+   the other connections (stalled_handshake_isolated), and the adversaries' own outputs are not compared. *)
+Definition conn_events (dtls : bool) (i : nat) (c : cobs) : list (aev greq) :=
+  match co_kind c with
+  | CkGood => AvHandshake i HsOk :: map (fun x => AvData i (fst x)) (co_xs c)
+  | CkHsThenStall => [AvHandshake i HsOk]
+  | CkGarbage | CkCloseNow => if dtls then [] else [AvHandshake i HsErr]
+  | CkSilent | CkPartialHello | CkFiltered => []
+  end.
+Definition tls_events (dtls : bool) (conns : list cobs) : list (aev greq) :=
+  let ics := combine (seq 0 (length conns)) conns in
+  flat_map (fun ic => if reaches_listener (co_kind (snd ic)) then [AvAccept (fst ic)] else []) ics
+  ++ flat_map (fun ic => conn_events dtls (fst ic) (snd ic)) ics.
+Fixpoint resp_rel (outs : list (aout (greq * Z * list Z))) (xs : list (greq * option owire)) : bool :=
+  match outs, xs with
+  | [], [] => true
+  | AoOut _ (q, code, pay) :: r, (_, Some o) :: xs' =>
+      (ow_code o =? code) && bytes_eqb (ow_tok o) (q_tok q) && (ow_plen o =? blen pay) && (ow_pcs o =? csum pay) && resp_rel r xs'
+  | _, _ => false
+  end.
+Definition conn_agrees (st : astate unit) (outs : list (aout (greq * Z * list Z))) (i : nat) (c : cobs) : bool :=
+  match co_kind c with
+  | CkGood =>
+      co_hs c && (co_new c =? 1) && (co_errs c =? 0)
+      && list_eqb hcall_eqb (map (fun x => hcall_of (fst x)) (co_xs c)) (co_hlog c)
+      && match filter (@aout_of _ i) outs with
+         | AoSpawn _ :: AoNew _ :: rest => resp_rel rest (co_xs c)
+         | _ => false
+         end
+  | CkHsThenStall =>
+      co_hs c && (co_new c =? 1)
+      && match alookup unit i (a_conns st) with Some (PhOpen, _) => true | _ => false end
+  | CkFiltered => (co_new c =? 0) && match alookup unit i (a_conns st) with None => true | _ => false end
+  | _ => true
+  end.
+
 (* ---- discovery ---- *)
 Definition first_byte (l : list Z) : Z := match l with b :: _ => b | [] => -1 end.
 Fixpoint disc_agrees (lst : addr) (dst : option ip) (s : sstate cstate) (steps : list (dstep * addr * list Z)) : bool :=
@@ -193,6 +257,12 @@ Definition agrees (c : case) : bool :=
                    (nc =? 1) && (ne =? 0) && list_eqb hcall_eqb (map (fun x => hcall_of (fst x)) xs) log
                    && forallb (fun x => match snd x with Some o => tcp_resp_agrees (fst x) o | None => false end) xs) goods
   | DiscRun lst dst steps => disc_agrees lst dst (init_state 0) steps
+  | TlsRun dtls conns alive probe stopped panics =>
+      (* the model (accepting never waits for a handshake) on the listener's order: every well-behaved
+         connection is spawned, announced once and served as if it were alone, whatever the others do *)
+      alive && probe && stopped && (panics =? 0)
+      && let '(st, outs) := arun unit greq (greq * Z * list Z) tt sconn_step (negb dtls) (ainit unit) (tls_events dtls conns) in
+         forallb (fun ic => conn_agrees st outs (fst ic) (snd ic)) (combine (seq 0 (length conns)) conns)
   | RaceRun lst a pairs g p on oe op od =>
       match cserver_run 65536 (init_state 0)
               (flat_map (fun _ => [EDgram a lst None g; ETick; EDgram a lst None p]) (seq 0 pairs)) with
@@ -211,6 +281,11 @@ Definition pclass (c : case) : N :=
       else if forallb (fun p => p_good p || (p_pongs p =? blen (filter (fun s => is_ping_bytes (dg_bytes (s_dg s))) (p_sends p)))) peers
            then 0%N else 8%N
   | TcpRun goods alive probe stopped panics => c10_run_class alive probe stopped panics goods
+  | TlsRun _ conns alive probe stopped panics =>
+      let h := c10_handshake_class (flat_map (fun c => match co_kind c with CkGood | CkHsThenStall => [co_hs c] | _ => [] end) conns) in
+      if negb (N.eqb h 0) then h
+      else c10_run_class alive probe stopped panics
+             (flat_map (fun c => match co_kind c with CkGood => [(co_xs c, co_new c, co_errs c, co_hlog c)] | _ => [] end) conns)
   | DiscRun _ _ steps => if disc_ok [] (map (fun x => fst (fst x)) steps) then 0%N else 7%N
   (* every ping must be answered: a datagram for a key whose connection was closed is served by a replacement, not dropped *)
   | RaceRun _ _ pairs _ _ _ _ op od => if (od =? 0) && (op =? Z.of_nat pairs) then 0%N else 8%N
